@@ -5,6 +5,10 @@ REPO = os.environ.get("GASOL_REPO", "/repo")
 sys.path.insert(0, REPO)
 spec = json.loads(os.environ.get("GV_INJECT", "{}"))
 import gasol_asm
+import global_params.paths as _paths
+if os.environ.get("GV_PATHFILE"):
+    with open(os.environ["GV_PATHFILE"], "w") as _f:
+        _f.write(_paths.gasol_path)
 import sfs_generator.ir_block as ir_block
 
 _real_compile = ir_block.evm2rbr_compiler
